@@ -10,10 +10,10 @@ import (
 )
 
 type genOpts struct {
-	ASTNames   bool // names that are not OPL identifiers (AST-loaded configs only)
-	AllowNot   bool
-	AllowAnd   bool
-	AllowTTU   bool
+	ASTNames     bool // names that are not OPL identifiers (AST-loaded configs only)
+	AllowNot     bool
+	AllowAnd     bool
+	AllowTTU     bool
 	MaxExprDepth int
 	// RecursiveTTU allows `view = parents.traverse(p => p.permits.view)`
 	RecursiveTTU bool
